@@ -614,9 +614,26 @@ def parse_comments(s):
 def replay(ctx):
     rec = json.load(open(ctx.replay))
     r = rec['replay']
+    if r.get('option_files'):
+        global PENDING
+        PENDING = True
+        print('scenario:', r['scenario'], ' files:', json.dumps(r['files']), ' arguments:', r['args'], ' expected:', r['expected'])
+        options_precedence(ctx)
+        hit = [v for v in ctx.violations if v['replay'].get('scenario') == r['scenario']]
+        print('now:', json.dumps(hit[0]['replay']) if hit else 'as expected')
+        ctx.cleanup()
+        return 0
     code, cfg = r['code'], r.get('config', {})
     print('input :', json.dumps(code))
     print('config:', json.dumps(cfg))
+    if r.get('config_sources'):
+        d = ctx.mkscratch()
+        o = run_modes(code, None, os.path.join(d, 'replay'), files=r['files'], args=r['args'])
+        print('files:', json.dumps(r['files']), ' arguments:', r['args'], ' effective:', json.dumps(r['effective']))
+        print('command line:', json.dumps(printable(o))[:3000])
+        print('property clauses:', json.dumps(judge_modes(o) + (obeys(o, r['effective'], code) if o['inplace_rc'] == 0 else [])))
+        ctx.cleanup()
+        return 0
     if r.get('cli_modes'):
         d = ctx.mkscratch()
         o = run_modes(code, cfg, os.path.join(d, 'replay'))
@@ -655,12 +672,12 @@ def run(ctx):
         for cfg in fixed:
             add(c, cfg, 'corpus')
     # 2. grammar-based programs with trivia
-    nprog = 30000 if thorough else 2200
+    nprog = 24000 if thorough else 2200
     for i in range(nprog):
         p = g_program(rng, odd=(i % 10 == 0))
         add(p, {} if i % 3 == 0 else rand_cfg(rng), 'program')
     # 3. all 256 combinations of the boolean options on a few programs
-    nall = 40 if thorough else 3
+    nall = 30 if thorough else 3
     for i in range(nall):
         p = g_program(rng, noise=0.3)
         for bits in itertools.product([False, True], repeat=len(BOOL_OPTS)):
@@ -746,6 +763,26 @@ def run(ctx):
             if m != i and len(ctx.disagreements) < 100:
                 ctx.disagreements.append({'fn': fn, 'args': a, 'implementation': i[:300], 'model': m[:300]})
         ctx.cov['traces_validated_against_impl'] += len(unit)
+        # ArgumentFormatter's comma rule, observed per argument list of real formatter runs
+        cp = [pairs[k] for k in range(0, len(pairs), max(1, len(pairs) // (4000 if thorough else 500)))]
+        obs = [x for o in pmap(lambda ch: run_impl('c16.py', {'commas': ch})['commas'],
+                               [cp[i:i + 100] for i in range(0, len(cp), 100)]) for x in o]
+        ccases, cexp = [], []
+        for (code, cfg), rows in zip(cp, obs):
+            for row in rows:
+                if len(row) != 6:
+                    ctx.disagreements.append({'fn': 'commas', 'code': code, 'config': cfg, 'implementation': row})
+                    continue
+                na, nc, ml, fn, loud, after = row
+                fl = ''.join('T' if b else 'F' for b in (cfg.get('no_single_comma_function', False), ml, fn, loud))
+                ccases.append(('commas', [fl, str(na), str(nc)])); cexp.append((code, cfg, after))
+        cm = ctx.run_model(ccases)
+        for (fn_, a), m, (code, cfg, after) in zip(ccases, cm, cexp):
+            ctx.count((fn_, tuple(a)))
+            if m != str(after) and len(ctx.disagreements) < 100:
+                ctx.disagreements.append({'fn': 'commas', 'args': a, 'code': code, 'config': cfg, 'implementation': after, 'model': m})
+        ctx.cov['traces_validated_against_impl'] += len(ccases)
+        ctx.extra['comma_rule_observations'] = len(ccases)
         ctx.extra['unit_cases'] = len(unit)
         small = [k for k in range(len(cases)) if sum(len(a) for a in cases[k][1]) < 250]
         rng.shuffle(small)
@@ -815,7 +852,9 @@ def run(ctx):
 
     t_cli = time.time()
     cli_sample(ctx, rng, pairs, res, 60 if thorough else 10)
-    cli_modes(ctx, rng, run_, pairs, res, 12 if thorough else 1)
+    cli_modes(ctx, rng, run_, pairs, res, 6 if thorough else 1)
+    options_precedence(ctx)
+    config_sources(ctx)
     ctx.extra['cli_s'] = round(time.time() - t_cli, 1)
     return ctx.finish(
         level='proof',
@@ -980,14 +1019,26 @@ def write_conf(path, cfg):
             f.write('%s = %s\n' % (key, v))
 
 
-def run_modes(text, cfg, wd, again=True):
-    """every mode of `meson format` on one file (its exact bytes); nothing but the implementation"""
+def run_modes(text, cfg, wd, again=True, files=None, args=None):
+    """every mode of `meson format` on one file (its exact bytes); nothing but the implementation.
+    The configuration comes either from cfg (written to a file passed with -c) or from a layout:
+    files {relative path: text} next to / above the build file and command line arguments."""
+    top = wd
+    wd = os.path.join(wd, 'top', 'sub')
     os.makedirs(wd)
+    with open(os.path.join(top, '.editorconfig'), 'w') as f:
+        f.write('root = true\n')              # fence: nothing above the scratch directory is read
     data = text.encode('utf-8')
     src = os.path.join(wd, 'meson.build')
-    conf = os.path.join(wd, 'fmt.ini')
-    write_conf(conf, cfg)
-    base = ['format', '-c', conf]
+    if files is None:
+        conf = os.path.join(wd, 'fmt.ini')
+        write_conf(conf, cfg)
+        base = ['format', '-c', conf]
+    else:
+        for rel, txt in files.items():
+            with open(os.path.join(wd, rel), 'w', encoding='utf-8', newline='') as f:
+                f.write(txt)
+        base = ['format'] + list(args or [])
 
     def put():
         with open(src, 'wb') as f:
@@ -1062,10 +1113,8 @@ def judge_modes(o):
 
 
 def modes_ident(f):
-    """recorded finding: the check modes compare decoded text (universal newlines), --inplace/--output
-    write with the end_of_line translation: only line endings differ"""
-    if f['kind'] == 'check-status-wrong' and f['rc'] == 0 and f['inplace_would_change_bytes'] and f['only_line_endings_differ']:
-        return 'C16:cli:check-ignores-line-endings'
+    """no recorded finding is left for the command-line clauses (check-ignores-line-endings was repaired
+    by fix b64ddf1): every failure is reported"""
     return None
 
 
@@ -1118,3 +1167,196 @@ def cli_modes(ctx, rng, run_, pairs, res, nbases):
                           {'code': text, 'config': cfg, 'variant': name, 'failure': f, 'cli_modes': True})
     ctx.extra['cli_modes'] = stats
     ctx.sample({'cli_modes_file': jobs[1][1][:120], 'variant': jobs[1][0], 'config': jobs[1][2]} if len(jobs) > 1 else {})
+
+
+# ------------------------------------------------------------------ option files: documented precedence
+PENDING = os.environ.get('C16_PENDING_FIXES', '0') == '1'     # judge clauses that need a pending fix (pending/C16-*.diff)
+PROBE = 'if true\nx = [1, 2]\nendif\n'
+
+
+def options_precedence(ctx):
+    """Commands.md: a meson.format beside the build file is used when no configuration is given on the
+    command line; --editor-config (or use_editor_config in the configuration) adds .editorconfig;
+    a key of the configuration file beats .editorconfig beats the default; in .editorconfig the closer
+    file and the later matching section win (editorconfig.org), root = true stops the search."""
+    EC = lambda size, extra='': '%s[*]\nindent_style = space\nindent_size = %d\n' % (extra, size)
+    # name, files {relative path: text}, cwd-relative args, expected (indent, space_array), needs pending fix
+    sc = [
+        ('defaults', {}, [], ('    ', False), False),
+        ('meson.format beside the file', {'meson.format': "indent_by = '  '\nspace_array = true\n"}, [], ('  ', True), False),
+        ('-c replaces meson.format', {'meson.format': "indent_by = '  '\nspace_array = true\n", 'other.ini': "indent_by = '\t'\n"},
+         ['-c', 'other.ini'], ('\t', False), False),
+        ('.editorconfig with -e', {'.editorconfig': EC(3)}, ['-e'], ('   ', False), False),
+        ('.editorconfig without -e is ignored', {'.editorconfig': EC(3)}, [], ('    ', False), False),
+        ('use_editor_config in meson.format', {'.editorconfig': EC(3), 'meson.format': 'use_editor_config = true\n'}, [], ('   ', False), False),
+        ('configuration beats .editorconfig', {'.editorconfig': EC(3), 'c.ini': "indent_by = '\t'\n"}, ['-e', '-c', 'c.ini'], ('\t', False), False),
+        ('layers combine per key', {'.editorconfig': EC(3), 'c.ini': 'space_array = true\n'}, ['-e', '-c', 'c.ini'], ('   ', True), False),
+        ('only matching sections', {'.editorconfig': '[*.py]\nindent_style = space\nindent_size = 7\n[meson.build]\nindent_style = space\nindent_size = 5\n'},
+         ['-e'], ('     ', False), False),
+        ('later matching section wins', {'.editorconfig': EC(3) + '[meson.build]\nindent_size = 5\n'}, ['-e'], ('     ', False), False),
+        ('indent_style = tab', {'.editorconfig': '[*]\nindent_style = tab\n'}, ['-e'], ('\t', False), False),
+        ('root = true stops the search', {'../.editorconfig': EC(8), '.editorconfig': EC(2, 'root = true\n')}, ['-e'], ('  ', False), False),
+        ('closer .editorconfig wins', {'../.editorconfig': EC(8, 'root = true\n'), '.editorconfig': EC(2)}, ['-e'], ('  ', False), True),
+        ('parent .editorconfig fills the gaps', {'../.editorconfig': EC(6, 'root = true\n'), '.editorconfig': '[*]\nmax_line_length = 40\n'}, ['-e'], ('      ', False), False),
+    ]
+    d = os.path.join(ctx.mkscratch(), 'optfiles')
+
+    def one(i):
+        name, files, args, exp, pend = sc[i]
+        wd = os.path.join(d, 's%d' % i, 'top', 'sub')
+        os.makedirs(wd)
+        with open(os.path.join(wd, '..', '..', '.editorconfig'), 'w') as f:
+            f.write('root = true\n')          # fence: nothing above the scenario is read
+        for rel, txt in dict(files, **{'meson.build': PROBE}).items():
+            with open(os.path.join(wd, rel), 'w', encoding='utf-8') as f:
+                f.write(txt)
+        p = meson_cli(['format'] + args + ['meson.build'], cwd=wd)
+        lines = p.stdout.split('\n')
+        got = None
+        if p.returncode == 0 and len(lines) >= 3 and lines[0] == 'if true' and lines[1].lstrip(' \t').startswith('x = ['):
+            got = (lines[1][:len(lines[1]) - len(lines[1].lstrip(' \t'))], lines[1].lstrip(' \t') == 'x = [ 1, 2 ]')
+        return got, p.returncode, p.stdout[:200], p.stderr[-200:]
+    stats = {'scenarios': len(sc), 'judged': 0, 'pending_fix_not_judged': 0}
+    for i, (got, rc, out, err) in enumerate(pmap(one, range(len(sc)))):
+        name, files, args, exp, pend = sc[i]
+        ctx.count(('option-files', name))
+        if pend and not PENDING:
+            stats['pending_fix_not_judged'] += 1
+            continue
+        stats['judged'] += 1
+        if got != exp:
+            ctx.violation('C16:option-files:' + name,
+                          'option files: %s: expected indentation %r space_array %r, got %r (rc %s)' % (name, exp[0], exp[1], got, rc),
+                          {'scenario': name, 'files': files, 'args': args, 'probe': PROBE, 'expected': list(exp),
+                           'got': list(got) if got else None, 'stdout': out, 'stderr': err, 'option_files': True})
+    ctx.extra['option_files'] = stats
+
+
+# ------------------------------------------------------------------ configuration sources x byte-level check
+def ini(d):
+    return ''.join('%s = %s\n' % (k, ("'" + v + "'" if isinstance(v, str) and k in ('indent_by', 'indent_before_comments') else
+                                     ('true' if v is True else 'false' if v is False else v))) for k, v in d.items())
+
+
+def ecfile(section, d, root=False):
+    return ('root = true\n' if root else '') + '[%s]\n' % section + ''.join('%s = %s\n' % (k, ('true' if v is True else 'false' if v is False else v)) for k, v in d.items())
+
+
+EC_TO_FMT = {'end_of_line': lambda v: ('end_of_line', v), 'max_line_length': lambda v: ('max_line_length', 0 if v == 'off' else int(v)),
+             'insert_final_newline': lambda v: ('insert_final_newline', v)}
+
+
+def ec_effect(d):
+    """FormatterConfig keys that a set of .editorconfig properties stands for (Commands.md / editorconfig.org)"""
+    e = {}
+    if d.get('indent_style') == 'space':
+        e['indent_by'] = ' ' * int(d.get('indent_size', 4))
+    elif d.get('indent_style') == 'tab':
+        e['indent_by'] = '\t'
+    elif 'indent_size' in d:
+        e['indent_by'] = ' ' * int(d['indent_size'])
+    for k in ('end_of_line', 'max_line_length', 'insert_final_newline'):
+        if k in d:
+            kk, vv = EC_TO_FMT[k](d[k])
+            e[kk] = vv
+    return e
+
+
+SRC_PROBE = "if true\n    x = [1, 2, 3]\nendif\n"
+NL = {'lf': '\n', 'crlf': '\r\n', 'cr': '\r', 'native': os.linesep, None: os.linesep}
+
+
+def obeys(o, eff, text):
+    """--inplace wrote a file that follows the effective configuration (only what the probe shows)"""
+    bad = []
+    out = (o.get('inplace_bytes') or b'').decode('utf-8', 'replace')
+    nl = NL[eff.get('end_of_line')]
+    rest = out.replace(nl, '')
+    if '\n' in rest or '\r' in rest or nl not in out:
+        bad.append({'kind': 'inplace-ignores-effective-option', 'option': 'end_of_line', 'effective': eff.get('end_of_line', 'native')})
+    lines = out.replace(nl, '\n').split('\n')
+    if eff.get('insert_final_newline', True) and not out.endswith(nl):
+        bad.append({'kind': 'inplace-ignores-effective-option', 'option': 'insert_final_newline', 'effective': True})
+    if not eff.get('insert_final_newline', True) and not text.endswith(('\n', '\r')) and out.endswith(nl):
+        bad.append({'kind': 'inplace-ignores-effective-option', 'option': 'insert_final_newline', 'effective': False})
+    ind = eff.get('indent_by', '    ')
+    if len(lines) < 2 or lines[1][:len(lines[1]) - len(lines[1].lstrip(' \t'))] != ind:
+        bad.append({'kind': 'inplace-ignores-effective-option', 'option': 'indent_by', 'effective': ind})
+    width = len(ind.replace('\t', ' ' * 4)) + len('x = [1, 2, 3]')
+    split = any(l.strip() == 'x = [' for l in lines)
+    mll = eff.get('max_line_length', 80)
+    if split != (width > mll):
+        bad.append({'kind': 'inplace-ignores-effective-option', 'option': 'max_line_length', 'effective': mll, 'split': split})
+    return bad
+
+
+def config_sources(ctx):
+    """the same option given by each configuration source alone and in combination; documented precedence:
+    --configuration FILE, else meson.format beside the file; over .editorconfig (with -e or
+    use_editor_config = true; sections [*], [meson.build], [*.build]); over the defaults."""
+    thorough = ctx.tier == 'thorough'
+    OPTS = [  # (FormatterConfig form, .editorconfig form)
+        ({'end_of_line': 'crlf'}, {'end_of_line': 'crlf'}),
+        ({'end_of_line': 'cr'}, {'end_of_line': 'cr'}),
+        ({'end_of_line': 'lf'}, {'end_of_line': 'lf'}),
+        ({'indent_by': '  '}, {'indent_style': 'space', 'indent_size': 2}),
+        ({'indent_by': '\t'}, {'indent_style': 'tab'}),
+        ({'max_line_length': 10}, {'max_line_length': 10}),
+        ({'insert_final_newline': False}, None),
+    ]
+    OTHER = ({'end_of_line': 'lf', 'indent_by': '      ', 'max_line_length': 200}, {'end_of_line': 'lf', 'indent_style': 'space', 'indent_size': 6, 'max_line_length': 200})
+    sc = []      # name, files, args, effective
+    for fmt, ec in OPTS:
+        tag = json.dumps(fmt)
+        sc.append(('meson.format ' + tag, {'meson.format': ini(fmt)}, [], fmt))
+        sc.append(('--configuration ' + tag, {'c.ini': ini(fmt)}, ['-c', 'c.ini'], fmt))
+        sc.append(('--configuration beats meson.format ' + tag, {'c.ini': ini(fmt), 'meson.format': ini(OTHER[0])}, ['-c', 'c.ini'], fmt))
+        if ec is None:
+            continue
+        for sect in (['*', 'meson.build', '*.build'] if thorough or 'end_of_line' in ec else ['meson.build']):
+            sc.append(('.editorconfig [%s] -e %s' % (sect, tag), {'.editorconfig': ecfile(sect, ec)}, ['-e'], ec_effect(ec)))
+        sc.append(('.editorconfig + use_editor_config ' + tag, {'.editorconfig': ecfile('*', ec), 'meson.format': 'use_editor_config = true\n'}, [], ec_effect(ec)))
+        sc.append(('.editorconfig without -e ' + tag, {'.editorconfig': ecfile('*', ec)}, [], {}))
+        sc.append(('meson.format beats .editorconfig ' + tag, {'.editorconfig': ecfile('*', OTHER[1]), 'meson.format': ini(fmt)}, ['-e'],
+                   dict(ec_effect(OTHER[1]), **fmt)))
+        sc.append(('.editorconfig fills what --configuration leaves ' + tag, {'.editorconfig': ecfile('*', ec), 'c.ini': 'space_array = false\n'}, ['-e', '-c', 'c.ini'], ec_effect(ec)))
+        sc.append(('parent .editorconfig ' + tag, {'../.editorconfig': ecfile('*', ec, root=True)}, ['-e'], ec_effect(ec)))
+    if not thorough:     # quick: end_of_line = crlf from every source and combination, a sample of the rest
+        keep = {'"end_of_line": "crlf"': None,
+                '"end_of_line": "cr"': ('.editorconfig [meson.build] -e',),
+                '"end_of_line": "lf"': ('.editorconfig [*] -e',),
+                '"indent_by": "  "': ('meson.format {', '.editorconfig [meson.build] -e', 'meson.format beats .editorconfig'),
+                '"indent_by": "\\t"': ('parent .editorconfig',),
+                '"max_line_length": 10': ('--configuration {', '.editorconfig + use_editor_config'),
+                '"insert_final_newline": false': ('meson.format {',)}
+        sc = [x for x in sc if any(tag in x[0] and (pre is None or x[0].startswith(pre)) for tag, pre in keep.items())]
+    jobs = []
+    for name, files, args, eff in sc:
+        texts = [('lf', SRC_PROBE)]
+        if thorough or 'end_of_line' in name:
+            texts.append(('crlf', SRC_PROBE.replace('\n', '\r\n')))
+        if thorough or 'insert_final_newline' in name:
+            texts.append(('no-final-newline', SRC_PROBE[:-1]))
+        if thorough:
+            texts.append(('cr', SRC_PROBE.replace('\n', '\r')))
+        for tn, text in texts:
+            jobs.append((name, tn, text, files, args, eff))
+    d = os.path.join(ctx.mkscratch(), 'sources')
+
+    def one(j):
+        name, tn, text, files, args, eff = jobs[j]
+        o = run_modes(text, None, os.path.join(d, 'j%d' % j), again=thorough, files=files, args=args)
+        fails = judge_modes(o)
+        if o['inplace_rc'] == 0:
+            fails += obeys(o, eff, text)
+        return fails
+    stats = {'scenarios': len(sc), 'files': len(jobs), 'failures': {}}
+    for j, fails in enumerate(pmap(one, range(len(jobs)))):
+        name, tn, text, files, args, eff = jobs[j]
+        ctx.count(('config-sources', name, tn))
+        for f in fails:
+            stats['failures'][f['kind']] = stats['failures'].get(f['kind'], 0) + 1
+            ident = modes_ident(f) or 'C16:config-sources:%s:%s:%s:%s' % (f['kind'], f.get('mode', f.get('option', '')), name, tn)
+            ctx.violation(ident, 'configuration sources: %s (%s) with %s, file with %s line ends' % (f['kind'], f.get('mode', f.get('option', '')), name, tn),
+                          {'code': text, 'files': files, 'args': args, 'effective': eff, 'failure': f, 'config_sources': True})
+    ctx.extra['config_sources'] = stats
